@@ -132,9 +132,31 @@ CONFIGS = [
     # the same with every family of the machine enabled at every step (extensions, adversary, observations)
     cfg("deep_x", [ALLMUT + ["salt", "signature", "forgesigned", "verify", "recipient_enc", "recipient_add", "recipient_dec",
                              "sskr_pick", "sskr_join", "proof", "confirm", "types", "obs_types", "attach", "badattach", "obs_attach",
-                             "decorate", "forge", "tamper", "observe", "compare", "lookup"]] * 10, nreg=3, keys=("k1", "k2"), maxsize=16, maxt=1,
+                             "decorate", "forge", "tamper", "observe_nx", "compare", "lookup", "expr_build", "malform", "obs_parse", "decodewire"]] * 10, nreg=3, keys=("k1", "k2"), maxsize=16, maxt=1,
         policies="{<<1, <<<<1, 2>>>>>>, <<1, <<<<2, 2>>>>>>}",
-        inv=("WellFormedInv",), props=("C02Prop", "C03Prop", "C07Prop", "C13Prop", "C08Prop", "C09Prop", "C10Prop", "C11Prop", "C12Prop", "C14Prop", "C17Prop", "C19Prop")),
+        inv=("WellFormedInv",), props=("C02Prop", "C03Prop", "C07Prop", "C13Prop", "C08Prop", "C09Prop", "C10Prop", "C11Prop", "C12Prop", "C14Prop", "C17Prop", "C18Prop", "C19Prop", "C06Prop")),
+    # thorough-tier instances
+    cfg("obscure_t", [["build"], ["elide", "compress", "encrypt"], ["elide", "compress", "encrypt"]], nreg=1, maxsize=14, maxt=2,
+        shapes="{e \\in ShUpTo(%s, 5) : IsNode(e)} \\cup NodeSubjectNodes(%s, 9) \\cup Decorated(%s) \\cup Nodes2(%s) \\cup WrapNodes(%s)" % (B3, B2, B2, B2, B2)),
+    cfg("sskr_t", [["build"], ["encrypt"], ["sskr_splitjoin"]],
+        atoms=("a1",), nreg=1, maxsize=30, maxt=1, inv=("WellFormedInv",), props=("C11Prop",), policies=policies(3, 3),
+        shapes="{Leaf(V(\"a1\"))} \\cup {e \\in Sh(%s, 5) : IsNode(e)}" % (B1,)),
+    cfg("query_t", [["build"], ["elideset", "compressone", "encrypt"], ["elideset", "observe"], ["observe"]], nreg=1, maxsize=14, maxt=2,
+        inv=("WellFormedInv", "DeclaredDigestHonest", "RevealKeepsDigest", "C15Laws"),
+        shapes="ShUpTo(%s, 5) \\cup NodeSubjectNodes(%s, 9) \\cup Decorated(%s) \\cup DeepDecorated(%s) \\cup Nodes2(%s) \\cup Nodes3(%s)" % (B3, B2, B2, B2, B2, B1)),
+    cfg("compare_t", [["build"], ["build", "elide", "compress", "encrypt", "codec"], ["elide", "compress", "encrypt", "codec", "compare"], ["compare"]],
+        maxsize=9, maxt=2, inv=("WellFormedInv", "DeclaredDigestHonest", "C14Laws"), props=("C02Prop", "C14Prop", "C07Prop"),
+        shapes="ShUpTo(%s, 5) \\cup NodeSubjectNodes({Leaf(V(\"a1\"))}, 9) \\cup Decorated({Leaf(V(\"a1\"))}) \\cup Nodes2(%s)" % (B2, B1)),
+    cfg("expr_t", [["build"], ["expr_build"], ["malform", "elideset", "compressone"], ["malform", "codec", "obs_parse"], ["obs_parse"]],
+        atoms=("a1",), nreg=1, maxsize=30, maxt=1, inv=("WellFormedInv",), props=("C18Prop",),
+        shapes="{Leaf(V(\"a1\")), KV(1), Wrap(Leaf(V(\"a1\")))}"),
+    cfg("attach_t", [["build"], ["types", "attach", "badattach"], ["types", "attach", "badattach", "decorate", "elideset", "compressone"],
+                     ["elideset", "codec", "attach"], ["obs_types", "obs_attach"]],
+        atoms=("a1",), nreg=1, maxsize=40, maxt=1, inv=("WellFormedInv",), props=("C19Prop",),
+        shapes="{Leaf(V(\"a1\")), Wrap(Leaf(V(\"a1\")))} \\cup {e \\in Sh(%s, 5) : IsNode(e)}" % (B1,)),
+    cfg("proof_t", [["build"], ["build", "proof"], ["proof", "elideset"], ["confirm"]],
+        nreg=2, maxsize=12, maxt=2, inv=("WellFormedInv",), props=("C12Prop",),
+        shapes="ShUpTo(%s, 3) \\cup {e \\in Sh(%s, 5) : IsNode(e)} \\cup Nodes2(%s) \\cup WrapNodes(%s) \\cup NodeSubjectNodes({Leaf(V(\"a1\"))}, 9) \\cup Decorated({Leaf(V(\"a1\"))})" % (B2, B2, B2, B1)),
     # an assertion and its obscured twin
     cfg("twin_q", [["build"], ["navigate"], ["elideone", "compressone", "navigate"], ["assertions"]], maxsize=9, maxt=1,
         shapes="{e \\in ShUpTo(%s, 5) : IsNode(e)}" % B2),
